@@ -54,6 +54,17 @@ CLAIMED['C03'] = dict(
     technique='function contracts and lemma harnesses discharged as integer-theory VCs (goto program -> z3 5.1) on extracted real bodies; CBMC DFCC for the bit cursor',
     design='4/C03')
 
+CLAIMED['C02'] = dict(
+    text='Contract proof (integer theory; arbitrary source strides incl. negative and transposed, w,h <= 2^20) that each of '
+         'flipped_up_down/left_right, transposed, rotated90cw/ccw/180, subimage (both overloads) and subsampled views has the '
+         'documented dimensions and that its pixel (x,y) has exactly the address of the documented source pixel (shallow), over the '
+         'real factory bodies, the real locator stepping constructors (mem-initialiser expressions), offset, operator+= and xy_at; '
+         'plus the algebra flip^2 = id, rot90cw^4 = id, rot180 = flipLR o flipUD, rot90ccw o rot90cw = id.',
+    note=TRUST + 'nth_channel/kth_channel views, color_converted_view (C09), virtual locators and dynamic-image factories are not covered. '
+         'View/locator constructors and make_step_iterator are assumed to store their arguments.',
+    technique='function contracts with ghost coordinates, discharged as integer-theory VCs (goto program -> z3 5.1) on extracted real bodies',
+    design='4/C02')
+
 NOT_APPLICABLE = {
     'C12': 'relates two whole template pipelines through a file/stream and external C libraries; no function contract within reach of a C verifier states what read_image returns after write_view (DESIGN 5)',
     'C13': 'equality of results of different compositions of reader classes/devices/policies over the same bytes is a relational property over I/O histories, not a pre/postcondition of an extractable function (DESIGN 5)',
